@@ -4,6 +4,7 @@ import (
 	"context"
 	"encoding/json"
 	"fmt"
+	xast "github.com/cedar-policy/cedar-go/x/exp/ast"
 	"runtime"
 	"sort"
 	"strings"
@@ -177,7 +178,22 @@ func runConcurrent(payload []*Sx) *Sx {
 						_ = ps.Get(id).AST()
 						_ = p.Effect()
 					}
-					_ = ps.Map()
+					// accessor outputs belong to the caller: editing them must neither race with readers nor change the shared objects
+					m := ps.Map()
+					for id := range m {
+						delete(m, id)
+						break
+					}
+					m[cedar.PolicyID(fmt.Sprintf("scratch-%d-%d", w, i))] = cedar.NewPolicyFromAST((*cedarAST)(xast.Forbid()))
+					for _, e := range em {
+						sl := e.Parents.Slice()
+						if len(sl) > 0 {
+							sl[0] = types.NewEntityUID("Scratch", "x")
+						}
+						am := e.Attributes.Map()
+						am["scratch"] = types.Long(int64(w))
+						break
+					}
 				}
 				runtime.Gosched()
 			}
